@@ -9,9 +9,19 @@ ID = 'C05'
 NAMESPACE = 'VL.C05'
 LEAN_MODULES = ['VotelibProofs.Props.C05']
 GEN_MODULES = []
-REQUIRED = ['cw_copeland', 'cw_minimax_wv', 'cw_minimax_margins', 'no_candidate_dropped_copeland',
-            'no_candidate_dropped_minimax', 'no_candidate_dropped_schulze']
-UNPROVED = []
+REQUIRED = ['cw_copeland', 'cw_minimax_wv', 'cw_minimax_margins', 'cw_schulze', 'cw_benham', 'cw_tideman',
+            'copeland_in_smith',
+            'no_candidate_dropped_copeland', 'no_candidate_dropped_minimax', 'no_candidate_dropped_schulze',
+            'cw_rankedpairs_witness', 'cw_kemeny_witness', 'rankedpairs_dropped_witness', 'minimax_never_loser_witness',
+            'benham_elimination_tie_witness', 'tideman_elimination_tie_witness', 'tideman_last_tie_witness']
+UNPROVED = ['cw_rankedpairs_{wv,margins,pwo}: FALSE as stated on the current code (cw_rankedpairs_witness: refusal although a '
+            'Condorcet winner exists); the partial form "whenever ranked pairs answers for one seat it answers [w]" is not proved',
+            'cw_kemeny: FALSE as stated on the current code (cw_kemeny_witness: refusal when a lower place ties)',
+            'lockPairs_acyclic', 'widestPaths_correct (value = max over paths of min edge)',
+            'schulze_in_smith', 'rankedpairs_in_smith', 'kemeny_in_smith', 'benham_in_smith', 'tideman_in_smith',
+            'minimax_defining (worst defeat over ALL opponents, absent pair = 0:0): FALSE on sparse dictionaries '
+            '(minimax_never_loser_witness)',
+            'rankedpairs no_candidate_dropped: FALSE (rankedpairs_dropped_witness)']
 REQUIRED_COUNTERS = ['has_cw', 'sparse_never_loser', 'all_tied', 'cycle', 'from_ranked', 'uab_true', 'uab_false',
                      'n_all', 'n_one', 'hybrid', 'second_order_used', 'fraction', 'missing_pair']
 RULE = ('pairwise dictionaries over 2-5 candidates (6 occasionally) as in C06 (sparse / dense / tied / zero-count entries, '
@@ -449,5 +459,15 @@ def describe(case):
 
 TECHNIQUE = ('Lean 4 proofs of Condorcet-winner consistency and no-candidate-dropped for the modelled evaluators (unbounded) '
              '+ differential correspondence of every registered Condorcet evaluator and both hybrids with votelib')
-LEVEL_TEXT = ''
-LEVEL_NOTE = ''
+LEVEL_TEXT = ('All ten registered Condorcet evaluators, the three pairwise win scorers, Benham and TidemanAlternative (with the ranked-vote '
+              'plumbing they use) are modelled line for line and tied to /repo by a differential correspondence on every check plus an '
+              'oracle of the property clauses on the implementation.  Proved for all well-formed pairwise dictionaries (no size bound): '
+              'Copeland (both variants), minimax by winning votes and by margins, Schulze, Benham and Tideman alternative elect exactly '
+              'the Condorcet winner for one seat; every candidate Copeland names for one seat lies in the Smith set; Copeland, Schulze '
+              'and minimax list every candidate when there are as many seats as candidates.  Where the current code does not meet the '
+              'property (ranked pairs and Kemeny-Young refusals with a Condorcet winner, ranked pairs dropping candidates, minimax on '
+              'sparse dictionaries, hybrids crashing on elimination ties) the negation is proved on a concrete witness and the defect '
+              'is a listed open finding.')
+LEVEL_NOTE = ('Trusted: Lean kernel + propext/Classical.choice/Quot.sound; the correspondence harness (bounded by its generator: 2-6 '
+              'candidates, int/Fraction counts, profiles of up to 6 ballots); CPython dict order, set iteration order canonicalised as '
+              'listed under modelled-not-verified.')
